@@ -1,13 +1,14 @@
 //! C16, modelled kinds above the framing layer.
 //!
-//!   ardr <file> <frames> <index> <ops> <mode> <seed> <workers> <pool> <segs>
+//!   ardr <file> <frames> <index> <ops> <mode> <seed> <workers> <pool> <segs> <qscripts>
 //!        op history of the real SYNC bgzf reader and of the real ASYNC bgzf reader (scripted
 //!        source, `workers` inflate workers, blocking pool of `pool` threads), both against the
 //!        extracted Coq models NV.Bgzf.ReaderOps (sync) and NV.Async.Reader (async pipeline model,
 //!        run under the scheduler described by <segs>).
 //!        frames = csize:len:a:m,...  (data = pattern(len,a,m)); index = c:u,...;
 //!        ops = r<n> read | x<n> read_exact | f fill_buf | c<n> consume | a<n> read to end with an
-//!              n-byte buffer | k<c>:<u> seek | u<p> seek_by_uncompressed_position
+//!              n-byte buffer | k<c>:<u> seek | q<c>:<u> Reader::poll_seek driven directly, its poll_complete
+//!              script = next segment of <qscripts> ('1' = Pending, per call) | u<p> seek_by_uncompressed_position
 //!        obs = sync=<hist> async=<hist>, hist = <result>@<coffset>:<uoffset> per op, cut after the
 //!              first error.
 
@@ -96,6 +97,8 @@ pub enum MOp {
     Consume(usize),
     All(usize),
     Seek(u64, u16),
+    /// Reader::poll_seek driven directly (sync side: seek)
+    PollSeek(u64, u16),
     SeekU(u64),
 }
 
@@ -111,6 +114,7 @@ pub fn fmt_mops(ops: &[MOp]) -> String {
             MOp::Consume(n) => format!("c{n}"),
             MOp::All(n) => format!("a{n}"),
             MOp::Seek(c, u) => format!("k{c}:{u}"),
+            MOp::PollSeek(c, u) => format!("q{c}:{u}"),
             MOp::SeekU(p) => format!("u{p}"),
         })
         .collect::<Vec<_>>()
@@ -133,6 +137,10 @@ pub fn parse_mops(s: &str) -> Vec<MOp> {
                 "k" => {
                     let (c, u) = rest.split_once(':').unwrap();
                     MOp::Seek(c.parse().unwrap(), u.parse().unwrap())
+                }
+                "q" => {
+                    let (c, u) = rest.split_once(':').unwrap();
+                    MOp::PollSeek(c.parse().unwrap(), u.parse().unwrap())
                 }
                 "u" => MOp::SeekU(rest.parse().unwrap()),
                 _ => panic!("op {t}"),
@@ -188,7 +196,7 @@ fn sync_hist(file: &[u8], index: &bgzf::gzi::Index, ops: &[MOp]) -> String {
                         }
                     }
                 }
-                MOp::Seek(c, u) => match VP::try_from((*c, *u)) {
+                MOp::Seek(c, u) | MOp::PollSeek(c, u) => match VP::try_from((*c, *u)) {
                     Ok(vp) => match r.seek(vp) {
                         Ok(p) => u64::from(p).to_string(),
                         Err(x) => e(&x),
@@ -222,9 +230,20 @@ fn sync_hist(file: &[u8], index: &bgzf::gzi::Index, ops: &[MOp]) -> String {
     if out.is_empty() { "_".into() } else { out.join(" ") }
 }
 
-fn async_hist(file: &[u8], index: &bgzf::gzi::Index, ops: &[MOp], sched: Sched, workers: usize, pool: usize) -> (String, bool) {
+fn async_hist(
+    file: &[u8],
+    index: &bgzf::gzi::Index,
+    ops: &[MOp],
+    sched: Sched,
+    workers: usize,
+    pool: usize,
+    qscripts: Vec<Vec<bool>>,
+) -> (String, bool) {
     let tripped = sched.tripped.clone();
-    let src = AdvReader::new(file.to_vec(), sched);
+    // poll_complete follows an explicit per-call script, loaded right before each polled seek
+    // (empty = always Ready, also for `async fn seek`)
+    let (src, seek_events) = AdvReader::with_seek_events(file.to_vec(), sched);
+    let mut qscripts = qscripts.into_iter();
     let ops = ops.to_vec();
     let index = index.clone();
     let res = guarded(std::panic::AssertUnwindSafe(move || {
@@ -273,6 +292,26 @@ fn async_hist(file: &[u8], index: &bgzf::gzi::Index, ops: &[MOp], sched: Sched, 
                             Ok(p) => u64::from(p).to_string(),
                             Err(x) => e(&x),
                         },
+                        Err(_) => "badvp".into(),
+                    },
+                    MOp::PollSeek(c, u) => match VP::try_from((*c, *u)) {
+                        Ok(vp) => {
+                            {
+                                let mut q = seek_events.lock().unwrap();
+                                q.clear();
+                                q.extend(qscripts.next().unwrap_or_default());
+                            }
+                            let res = std::future::poll_fn(|cx| {
+                                let mut rr = &mut r;
+                                std::pin::Pin::new(&mut rr).poll_seek(cx, vp)
+                            })
+                            .await;
+                            seek_events.lock().unwrap().clear();
+                            match res {
+                                Ok(p) => u64::from(p).to_string(),
+                                Err(x) => e(&x),
+                            }
+                        }
                         Err(_) => "badvp".into(),
                     },
                     MOp::SeekU(p) => match r.seek_by_uncompressed_position(&index, *p).await {
@@ -327,7 +366,11 @@ pub fn run_ardr(c: &Case) -> Obs {
         _ => return Obs::fail("-", "harness-ardr-frame-table", "frame table does not describe the file"),
     }
     let s = sync_hist(&file, &index, &ops);
-    let (a, tripped) = async_hist(&file, &index, &ops, Sched::new(mode, seed), workers, pool);
+    let qscripts: Vec<Vec<bool>> = match c.args.get(9).map(|x| x.as_str()) {
+        None | Some("_") | Some("") => vec![],
+        Some(x) => x.split(';').map(|t| if t == "_" { vec![] } else { t.chars().map(|ch| ch == '1').collect() }).collect(),
+    };
+    let (a, tripped) = async_hist(&file, &index, &ops, Sched::new(mode, seed), workers, pool, qscripts);
     if tripped {
         return Obs::fail("-", "async-bgzf-hang", format!("poll limit reached ops={}", c.args[3]));
     }
@@ -336,6 +379,7 @@ pub fn run_ardr(c: &Case) -> Obs {
     if s != a {
         let i = s.split(' ').zip(a.split(' ')).position(|(x, y)| x != y).unwrap_or(0);
         let tag = match ops.get(i) {
+            Some(MOp::PollSeek(..)) => "async-bgzf-model-poll-seek-differs",
             Some(MOp::Seek(..)) | Some(MOp::SeekU(_)) => "async-bgzf-model-seek-differs",
             Some(MOp::Read(n)) if *n >= 65536 => "async-bgzf-model-direct-read-differs",
             _ => "async-bgzf-model-reader-differs",
@@ -410,7 +454,11 @@ pub fn gen_ardr(rng: &mut Rng, w: &mut CaseWriter, big: bool) {
                     3 => dlen + rng.range(1, 50) as usize,
                     _ => rng.below(dlen as u64 + 1) as usize,
                 };
-                MOp::Seek(starts[k], u.min(65535) as u16)
+                if rng.chance(1, 2) {
+                    MOp::PollSeek(starts[k], u.min(65535) as u16)
+                } else {
+                    MOp::Seek(starts[k], u.min(65535) as u16)
+                }
             }
             10 => MOp::SeekU(match rng.below(4) {
                 0 => 0,
@@ -443,6 +491,23 @@ pub fn gen_ardr(rng: &mut Rng, w: &mut CaseWriter, big: bool) {
             rng.range(1, 8).to_string(),
             rng.range(1, 8).to_string(),
             if segs.is_empty() { "_".into() } else { segs.join(";") },
+            {
+                // one poll_complete script per polled seek: Pending before start_seek, after it, both, none
+                let n = ops.iter().filter(|o| matches!(o, MOp::PollSeek(..))).count();
+                let v: Vec<String> = (0..n)
+                    .map(|_| match rng.below(6) {
+                        0 => "_".to_string(),
+                        1 => "1".to_string(),
+                        2 => "01".to_string(),
+                        3 => "101".to_string(),
+                        _ => {
+                            let k = rng.range(1, 7) as usize;
+                            (0..k).map(|_| if rng.chance(1, 2) { '1' } else { '0' }).collect()
+                        }
+                    })
+                    .collect();
+                if v.is_empty() { "_".into() } else { v.join(";") }
+            },
         ],
     );
 }
@@ -598,4 +663,133 @@ pub fn gen_awr(rng: &mut Rng, w: &mut CaseWriter, big: bool) {
             rng.pick(&[0u8, 1, 6, 6, 9]).to_string(),
         ],
     );
+}
+
+// ---------------------------------------------------------------------------------------------
+// kind `abam`: <data> <sizes> <with_pending> <chunk>
+//   an uncompressed BAM record stream ([le32 block_size][body]...) through
+//   bam::r#async::io::Reader::from(AdvReader under the explicit poll script).read_record (the async
+//   read_exact_or_eof + take/read_to_end framing) and through the sync bam reader: results of up to
+//   8 calls.  Model: NV.Async.ReadExact (async, same poll script; `chunk` = the read_to_end request
+//   size the model assumes, irrelevant by c16_async_bam_framing_equals_sync) and C12's
+//   NV.Io.Run.bam_read_records (sync).
+
+fn gen_bam_stream(rng: &mut Rng) -> Vec<u8> {
+    let mut data = Vec::new();
+    let nrec = rng.below(5);
+    for _ in 0..nrec {
+        let name_len = rng.below(6) as usize;
+        let ncig = rng.below(3) as usize;
+        let nb = rng.below(9) as usize;
+        let mut body = vec![0u8; 32];
+        body[8] = name_len as u8;
+        body[12..14].copy_from_slice(&(ncig as u16).to_le_bytes());
+        body[16..20].copy_from_slice(&(nb as u32).to_le_bytes());
+        body.extend(rng.bytes(name_len + 4 * ncig + nb.div_ceil(2) + nb));
+        if rng.chance(1, 6) {
+            let k = rng.below(body.len() as u64 + 1) as usize;
+            body.truncate(k); // declared sizes no longer fit: validate() fails
+        }
+        if rng.chance(1, 8) {
+            let k = rng.below(5) as usize;
+            body.extend(rng.bytes(k));
+        }
+        data.extend((body.len() as u32).to_le_bytes());
+        data.extend(body);
+    }
+    match rng.below(6) {
+        0 => {
+            let k = rng.range(1, 3) as usize;
+            let mut p = rng.bytes(k);
+            if rng.chance(1, 2) {
+                p.iter_mut().for_each(|b| *b = 0);
+            }
+            data.extend(p)
+        }
+        1 => {
+            let have = rng.below(40) as usize;
+            data.extend(((have + rng.range(1, 30) as usize) as u32).to_le_bytes());
+            data.extend(rng.bytes(have));
+        }
+        2 => data.extend(0u32.to_le_bytes()),
+        _ => {}
+    }
+    data
+}
+
+pub fn gen_abam(rng: &mut Rng, w: &mut CaseWriter) {
+    let data = gen_bam_stream(rng);
+    let n = rng.below(40) as usize;
+    let sizes: Vec<String> = (0..n).map(|_| rng.pick(&[1usize, 1, 2, 3, 4, 5, 7, 16, 33, 100]).to_string()).collect();
+    w.push(
+        "abam",
+        vec![
+            hex(&data),
+            if sizes.is_empty() { "_".into() } else { sizes.join(",") },
+            rng.below(2).to_string(),
+            rng.pick(&[1usize, 7, 32, 4096]).to_string(),
+        ],
+    );
+}
+
+pub fn run_abam(c: &Case) -> Obs {
+    let data = c.b(0);
+    let sizes: Vec<usize> = if c.args[1] == "_" { vec![] } else { c.args[1].split(',').map(|x| x.parse().unwrap()).collect() };
+    let with_pending = c.u(2) == 1;
+    let s = {
+        let mut r = noodles_bam::io::Reader::from(Cursor::new(data.clone()));
+        let mut rec = noodles_bam::Record::default();
+        let mut out = Vec::new();
+        for _ in 0..8 {
+            match r.read_record(&mut rec) {
+                Ok(n) => {
+                    out.push(n.to_string());
+                    if n == 0 {
+                        break;
+                    }
+                }
+                Err(x) => {
+                    out.push(e(&x));
+                    break;
+                }
+            }
+        }
+        out.join(",")
+    };
+    let sched = Sched::explicit(sizes, with_pending);
+    let tripped = sched.tripped.clone();
+    let src = AdvReader::new(data.clone(), sched);
+    let a = match guarded(std::panic::AssertUnwindSafe(move || {
+        block_on_pool(1, async move {
+            let mut r = noodles_bam::r#async::io::Reader::from(src);
+            let mut rec = noodles_bam::Record::default();
+            let mut out = Vec::new();
+            for _ in 0..8 {
+                match r.read_record(&mut rec).await {
+                    Ok(n) => {
+                        out.push(n.to_string());
+                        if n == 0 {
+                            break;
+                        }
+                    }
+                    Err(x) => {
+                        out.push(e(&x));
+                        break;
+                    }
+                }
+            }
+            out.join(",")
+        })
+    })) {
+        Outcome::Done(v) => v,
+        Outcome::Panicked(_) => "Panic".into(),
+    };
+    if tripped.load(Ordering::SeqCst) {
+        return Obs::fail("-", "async-bam-hang", "poll limit reached");
+    }
+    let obs = format!("sync={s} async={a}");
+    if s != a {
+        return Obs::fail(obs, "async-bam-record-framing-differs", format!("sync={s} async={a} data={}", hex(&data)));
+    }
+    Obs::ok(obs, data.len() >= 4)
 }
